@@ -47,6 +47,30 @@ package commands
 //@     before call storage.OpenFGADatastore.Write args _, _, st, dels, wrs : assert validated && dupOK && missOK && st == req.GetStoreId() && dels == req.GetDeletes().GetTupleKeys() && wrs == req.GetWrites().GetTupleKeys()
 //@     after call storage.OpenFGADatastore.Write returning e : written = true
 
+// a Write request passes validation only if EVERY tuple to write passed tuple validation against the typesystem of the
+// model the request names, is not an implicit tuple, and had its condition context measured against the byte limit —
+// each in its own iteration, none skipped (counted per loop iteration; the size comparison itself is the branch that
+// leaves the loop)
+//@ func (*WriteCommand).validateWriteRequest(c, ctx, req) (err)
+//@   property C18
+//@   option nosafety
+//@   option stable req
+//@   option stable c
+//@   loop 0 invariant $idx < len(writes) && nv == $idx + 1 && ni == $idx + 1 && ns == $idx + 1 && ($idx >= 0 ==> lastN <= c.conditionContextByteLimit) && tsOK
+//@   ensures @everyWriteValidated err == nil && len(writes) > 0 ==> tsOK && nv == len(writes) && ni == len(writes) && ns == len(writes)
+//@   monitor perTuple
+//@     ghost nv int = 0
+//@     ghost ni int = 0
+//@     ghost ns int = 0
+//@     ghost lastN int = 0
+//@     ghost tsOK = false
+//@     ghost tsys ref = nil
+//@     before call storage.AuthorizationModelReadBackend.ReadAuthorizationModel | storage.OpenFGADatastore.ReadAuthorizationModel args _, _, st, id : assert st == req.GetStoreId() && id == req.GetAuthorizationModelId()
+//@     after call typesystem.New args m returning t, e : tsys = t ; tsOK = e == nil && m == authModel
+//@     after call validation.ValidateTupleForWrite args t, k returning e : nv = (e == nil && t == tsys && k == tk) ? nv + 1 : nv
+//@     after call (*commands.WriteCommand).validateNotImplicit args _, k returning e : ni = (e == nil && k == tk) ? ni + 1 : ni
+//@     after call proto.Size args m returning n : ns = (as(m, "*structpb.Struct") == pre(tk.GetCondition().GetContext())) ? ns + 1 : ns ; lastN = n
+
 // ------------------------------------------------------------------ Check command wiring (C10, C11)
 // the consistency preference and the cache controller's invalidation time reach the resolver unchanged; the
 // controller is not consulted for HIGHER_CONSISTENCY
@@ -133,7 +157,7 @@ package commands
 // each de-duplicated item is evaluated as the standalone Check of exactly its tuple, contextual tuples and context in
 // this request's store with this request's consistency, and the outcome recorded under its key is that Check's
 //@ func (*BatchCheckQuery).Execute$1(ctx) (err)
-//@   property C07
+//@   property C07 C10
 //@   option nosafety
 //@   monitor standalone
 //@     ghost executed = false
@@ -233,8 +257,12 @@ package commands
 
 // computed node: the rewrite's object#relation with the expanded object / relation filled in where it leaves them open
 //@ func (*ExpandQuery).resolveComputedUserset(q, ctx, userset, tk) (res, err)
-//@   property C30
+//@   property C30 C17
 //@   option nosafety
+// the rewrite node handed in is the stored model's own node (shared with the typesystem cache and, in memory, the
+// datastore): Expand reads it and never writes it
+//@   ensures @modelNodeUntouched userset != nil ==> userset.Object == old(userset.Object) && userset.Relation == old(userset.Relation)
+//@   ensures @requestUntouched tk != nil ==> tk.Object == old(tk.Object) && tk.Relation == old(tk.Relation) && tk.User == old(tk.User)
 //@   ensures @node err == nil && res != nil && res.Name == tuple.ToObjectRelationString(tk.GetObject(), tk.GetRelation()) && typeIs(res.Value, "*openfgav1.UsersetTree_Node_Leaf") && typeIs(as(res.Value, "*openfgav1.UsersetTree_Node_Leaf").Leaf.Value, "*openfgav1.UsersetTree_Leaf_Computed") && as(as(res.Value, "*openfgav1.UsersetTree_Node_Leaf").Leaf.Value, "*openfgav1.UsersetTree_Leaf_Computed").Computed.Userset == tuple.ToObjectRelationString((userset.GetObject() == "" ? tk.GetObject() : userset.GetObject()), (userset.GetRelation() == "" ? tk.GetRelation() : userset.GetRelation()))
 
 // direct-assignment leaf: read exactly object#relation (any user) with the request's consistency, keep only tuples that
